@@ -78,7 +78,7 @@ def plan(tier):
 
 
 def required_hits(tier):
-    return REQUIRED_HITS + ['A1.tx.inputs_ge_253']
+    return REQUIRED_HITS + ['A1.tx.inputs_ge_253', 'A1.dbreload_checked', 'A1.dbreload.v2-der', 'A1.dbreload.v1-cert']
 
 
 def gen_cases(rng, tier, shard, nshards):
@@ -99,6 +99,8 @@ def gen_cases(rng, tier, shard, nshards):
                    'boundary'][(i + shard) % 4], 'update_channel': (i + shard) % 3 == 0}
         if i < ntl:
             yield {'fam': 'timelock', 'seed': rng.getrandbits(48), 'extra': (i + shard) % 2}
+        if i < (2 if quick else 40):
+            yield {'fam': 'dbreload', 'seed': rng.getrandbits(48)}
 
 
 # ------------------------------------------------------------------------------------- start-up
@@ -1226,5 +1228,109 @@ def execute(rec, case):
         walletfx.run(_run_timelock(rec, case), timeout=300)
     elif fam == 'legacy':
         _run_legacy(rec, case)
+    elif fam == 'dbreload':
+        walletfx.run(_run_dbreload(rec, case), timeout=600)
     else:
         raise ValueError(fam)
+
+
+# ------------------------------------------------------------------------------------- outputs that went through the database
+async def _run_dbreload(rec, case):
+    """A1 for outputs that were stored and loaded again (added after seeded break C04-C): a channel / claim / support / payment output is
+    confirmed 'on chain' as raw bytes, saved through the real database code, loaded back with the wallet's own listing calls (which attach
+    channel keys) and then spent (abandon / plain spend).  The signature must verify over the script bytes that are ON CHAIN, i.e. parsed
+    from the stored raw transaction by the independent parser - not over whatever the in-memory object regenerated.  Channel claims come
+    in the present encoding and in the two earlier-release encodings (88-byte DER key in a v2 claim, v1 protobuf certificate)."""
+    boot.import_lbry()
+    import hashlib as _h
+    import ecdsa
+    from lbry.wallet import Wallet, Account, Ledger, Database, Headers, Transaction, Output, Input
+    from lbry.wallet.bip32 import PrivateKey
+    from lbry.schema.claim import Claim
+    from lbry.schema.types.v1.legacy_claim_pb2 import Claim as OldClaimMessage
+    r = random.Random(case['seed'])
+    DER_PREFIX = bytes.fromhex('3056301006072a8648ce3d020106052b8104000a034200')
+    ledger = Ledger({'db': Database(':memory:'), 'headers': Headers(':memory:'), 'network': walletfx.FakeNetwork()})
+    await ledger.db.open()
+    try:
+        wallet = Wallet()
+        account = Account.from_dict(ledger, wallet, {'seed': walletfx.SEEDS[r.randrange(3)]})
+        await account.ensure_address_gap()
+        addresses = await account.receiving.get_addresses()
+        for kind in ('modern', 'v2-der', 'v1-cert', 'stream', 'support', 'payment'):
+            holding = addresses[r.randrange(len(addresses))]
+            h160 = ledger.address_to_hash160(holding)
+            key = PrivateKey.from_bytes(ledger, _h.sha256(b'channel key %d' % r.getrandbits(40)).digest())
+            uncompressed = ecdsa.SigningKey.from_string(key.private_key_bytes, curve=ecdsa.SECP256k1).get_verifying_key().to_string('uncompressed')
+            amount = r.randrange(10 ** 6, 10 ** 8)
+            if kind == 'modern':
+                c = Claim()
+                c.channel.public_key_bytes = key.public_key.pubkey_bytes
+                c.channel.title = 'present encoding'
+                txo = Output.pay_claim_name_pubkey_hash(amount, '@now', c.to_bytes(), h160)
+            elif kind == 'v2-der':
+                c = Claim()
+                c.channel.public_key_bytes = DER_PREFIX + uncompressed
+                c.channel.title = 'earlier release: DER key'
+                txo = Output.pay_claim_name_pubkey_hash(amount, '@der', c.to_bytes(), h160)
+            elif kind == 'v1-cert':
+                old = OldClaimMessage()
+                old.version = 1
+                old.claimType = 2
+                old.certificate.version = 1
+                old.certificate.keyType = 3
+                old.certificate.publicKey = DER_PREFIX + uncompressed
+                txo = Output.pay_claim_name_pubkey_hash(amount, '@v1', old.SerializeToString(), h160)
+            elif kind == 'stream':
+                c = Claim()
+                c.stream.title = 'a stream'
+                txo = Output.pay_claim_name_pubkey_hash(amount, 'stream', c.to_bytes(), h160)
+            elif kind == 'support':
+                txo = Output.pay_support_pubkey_hash(amount, 'stream', r.randbytes(20).hex(), h160)
+            else:
+                txo = Output.pay_pubkey_hash(amount, h160)
+            if kind in ('modern', 'v2-der', 'v1-cert'):
+                account.add_channel_private_key(key)
+            coin = Output.pay_pubkey_hash(10 ** 8, ledger.address_to_hash160(addresses[r.randrange(len(addresses))]))
+            parent = Transaction().add_outputs([Output.pay_pubkey_hash(3 * 10 ** 8, r.randbytes(20))])
+            built = Transaction(is_verified=True, height=5).add_inputs([Input.spend(parent.outputs[0])]).add_outputs([txo, coin])
+            built.locktime = r.getrandbits(20)
+            built._reset()
+            raw_on_chain = built.raw
+            confirmed = Transaction(raw_on_chain, height=5, is_verified=True)
+            on_chain = minitx.parse(raw_on_chain)
+            spent = {(on_chain['txid'], n): o['script'] for n, o in enumerate(on_chain['outputs'])}
+            await ledger.db.insert_transaction(confirmed)
+            for o in confirmed.outputs:
+                a = o.get_address(ledger)
+                await ledger.db.save_transaction_io(confirmed, a, ledger.address_to_hash160(a), f'{confirmed.id}:5:')
+            # ---- load it back the way the wallet does, then spend it
+            if kind in ('modern', 'v2-der', 'v1-cert'):
+                loaded = [t for t in await ledger.get_channels(wallet=wallet, accounts=[account]) if t.tx_ref.id == confirmed.id]
+                if loaded and not loaded[0].has_private_key:
+                    rec.log('dbreload.channel_key_not_attached.' + kind)
+            elif kind == 'stream':
+                loaded = [t for t in await ledger.get_claims(wallet=wallet, accounts=[account]) if t.tx_ref.id == confirmed.id]
+            elif kind == 'support':
+                loaded = [t for t in await ledger.get_supports(wallet=wallet, accounts=[account]) if t.tx_ref.id == confirmed.id]
+            else:
+                loaded = [t for t in await account.get_utxos() if t.tx_ref.id == confirmed.id and t.position == 0]
+            if not loaded:
+                rec.log('dbreload.not_listed.' + kind)
+                continue
+            tx = await Transaction.create([Input.spend(loaded[0])], [], [account], account)
+            rec.hit('A1.dbreload_checked')
+            rec.hit('A1.dbreload.' + kind)
+            # spent scripts of further inputs the builder may have added
+            m = minitx.parse(tx.raw)
+            for txin in m['inputs']:
+                k = (txin['txid'], txin['nout'])
+                if k not in spent:
+                    rows = await ledger.db.db.execute_fetchall("select raw from tx where txid=?", (txin['txid'],))
+                    pm = minitx.parse(bytes(rows[0]['raw']))
+                    spent[k] = pm['outputs'][txin['nout']]['script']
+            check_inputs(rec, tx.raw, spent, {'fam': 'dbreload', 'kind': kind, 'note': 'spent script = bytes of the stored raw transaction'})
+            await ledger.release_tx(tx)
+            rec.case(['dbreload', kind, len(m['inputs'])], sample={'fam': 'dbreload', 'kind': kind, 'inputs': len(m['inputs'])} if kind == 'v2-der' else None)
+    finally:
+        await ledger.db.close()
